@@ -245,6 +245,30 @@ func c17Run(c *core.C) {
 		f.Tokens = append(f.Tokens, &Live{T: t, Prov: []int{f.ev()}, Origin: "build"})
 		f.Ops = append(f.Ops, "build -> #0")
 		parentOf := map[int]int{0: -1}
+		if c.Idx%4 == 3 {
+			// ONE root builder asked for a token twice (nothing added in between): two tokens,
+			// signed at different times with fresh randomness, hence two identifiers
+			content := mk()
+			bld := biscuit.NewBuilder(priv, biscuit.WithRNG(f.rng))
+			if acc, err := lib.FillAuthority(bld, content); err == nil {
+				for k := 0; k < 2; k++ {
+					var b *biscuit.Biscuit
+					var berr error
+					if pi := lib.Try(func() { b, berr = bld.Build() }); pi != nil {
+						c.Violate("build-panic/"+pi.Site, pi.Msg, nil)
+						break
+					}
+					if berr != nil {
+						c.Count("root_builder_rebuild_refused", 1)
+						break
+					}
+					f.Tokens = append(f.Tokens, &Live{T: &lib.Token{B: b, Blocks: []ast.Block{acc}, Pub: t.Pub, Priv: priv}, Prov: []int{f.ev()}, Origin: "build"})
+					parentOf[len(f.Tokens)-1] = -1
+					f.Ops = append(f.Ops, fmt.Sprintf("build number %d on one root builder -> #%d", k+1, len(f.Tokens)-1))
+					c.Count("same_builder_builds", 1)
+				}
+			}
+		}
 		lastParent := 0
 		for step, nSteps := 0, 8+r.Intn(8); step < nSteps; step++ {
 			// half of the time extend the longest chain (deep tokens), one time in five fork the
@@ -386,8 +410,9 @@ func init() {
 		},
 	})
 	core.Register(&core.Prop{
-		ID:    "C17",
-		Level: "exploration",
+		ID:        "C17",
+		MinCounts: map[string]int{"same_builder_builds": 250, "counter_source_cases": 60, "short_read_source_cases": 60},
+		Level:     "exploration",
 		Rule: "each case: 3 families under ONE root key, every block drawn from only three fixed contents (so identical-content blocks abound), 6-11 derivation steps each (append, seal, re-load on random members, siblings included). For every live token: number of identifiers = blocks, identifiers of the parent are a prefix, every identifier equals the signature the independent decoder R3 finds on that block; a case-wide map identifier <-> signing event (provenance carried by the history) must be injective both ways. Randomness: a seeded stream, and crypto/rand in every 8th case. " +
 			"Non-trivial = cases with identical-content blocks signed by different events (pairs are counted).",
 		Assumptions: []string{"the seeded stream never repeats 32-byte windows"},
